@@ -12,7 +12,8 @@ package main
 // Also in every class: some subscribers are HTTP sessions that come in through sse.Server.ServeHTTP (OnSession scripted),
 // some publications go through Server.Publish (sprinkleServer), some writers forward to a real *sse.Session
 // (sprinkleSession), some publisher threads keep ONE topics slice and rewrite it in place between calls (sprinkleReuse),
-// some subscribers present a Last-Event-ID (sprinkleIDs).
+// some subscribers present a Last-Event-ID (sprinkleIDs); in one scenario of three the topic numbers are spelled as
+// names of another shape - long, differing in one byte, NUL, UTF-8, mixed sizes (sprinkleSpelling, jSpellings in joe_run.go).
 // All randomness comes from c.R.
 
 import (
@@ -1526,7 +1527,7 @@ func (g *jgen) tplRandom(maxSubs int) *jScenario {
 
 func genJoe(c *Ctx) {
 	g := &jgen{c: c, r: c.R}
-	mult, maxSubs := 2, 4 // quick: 976 scenarios, about 7 s
+	mult, maxSubs := 2, 4 // quick: 1219 scenarios, about 10 s
 	if c.Thorough {
 		mult, maxSubs = 20, 8 // thorough: 9760 scenarios, about 100 s
 	}
@@ -2211,7 +2212,7 @@ func (g *jgen) tplReplayRandom(maxSubs int) *jScenario {
 
 func genJoeReplay(c *Ctx) {
 	g := &jgen{c: c, r: c.R}
-	mult, maxSubs := 2, 4 // quick: 640 scenarios, about 5 s
+	mult, maxSubs := 2, 4 // quick: 952 scenarios, about 9 s
 	if c.Thorough {
 		mult, maxSubs = 20, 8 // thorough: 6400 scenarios, about 85 s
 	}
